@@ -223,6 +223,10 @@ def c01_catalogue(quick):
               U(4, path='/other/p4', outside=1), U(5, path='/docs-old/p5', outside=1)]
     np_sub[0]['links'].append(dict(to=5))
     out.append(scenario('noparent-subdir-start', np_sub, dict(noparent=1), N=1))
+    # a URL that is linked AND the target of a same-host redirect / the target of two redirects
+    out.append(scenario('redirect-target-also-linked', [U(1, links=[2, 3]), U(2, kind='redirect', rto=3), U(3, links=[1])], N=1))
+    out.append(scenario('two-redirects-one-target', [U(1, links=[2, 3]), U(2, kind='redirect', rto=4), U(3, kind='redirect', rto=4),
+                                                     U(4)], N=1))
     # --no-parent with page requisites: a requisite may lie outside the directory; the links found IN it are judged by
     # their own URL (a frame outside the directory that links back into it), and a URL outside that is both linked and
     # embedded is fetched as the requisite it is
